@@ -315,6 +315,10 @@ func cmdCheck(args []string) {
 		if o.shardDepth == 0 {
 			o.shardDepth = 3
 		}
+		if v := os.Getenv("GOSYM_TIMEOUT_MS"); v != "" {
+			// diagnosis: a short timeout exposes queries that are close to the limit
+			fmt.Sscanf(v, "%d", &o.timeoutMs)
+		}
 		if o.timeoutMs == 0 {
 			o.timeoutMs = 10000
 			if *tier == "thorough" {
